@@ -277,8 +277,13 @@ func HarnessC15Scram() {
 	}
 	svNote("success after: " + seq)
 	if !z.ackedValid {
+		// a v= message counts for the running exchange only: an empty challenge
+		// restarts the exchange
 		anyFinal := false
 		for _, t := range z.trace {
+			if t == "empty-challenge" {
+				anyFinal = false
+			}
 			if t == "valid-server-final" || t == "forged-server-final" || t == "empty-state-server-final" || t == "stale-server-final" {
 				anyFinal = true
 			}
